@@ -16,10 +16,21 @@ Open Scope Z_scope.
 Inductive mret := MPrim (p : prim) | MObj | MThrow.
 (* a scripted method: absent/not callable, or: log the call, optionally assign
    a primitive to variable n, then return / throw *)
-(* MInherit: the object has no own property of that name, the method is found
+(* MNone: the property holds undefined (not callable);
+   MInherit: the object has no own property of that name, the method is found
    along the prototype chain at every conversion (8.12.8 does a fresh [[Get]]);
-   MQuiet: a built-in (Object.prototype.valueOf / toString), not logged *)
-Inductive meth := MNone | MDo (setv : option (nat * prim)) (r : mret) | MInherit | MQuiet (r : mret).
+   MQuiet: a built-in (Object.prototype.valueOf / toString), not logged;
+   MDoS: a scripted method that, while it runs, assigns (or, with MInherit, deletes) the conversion method
+   twhich of object tid, then returns / throws;
+   MGet: the property is an accessor: every [[Get]] runs the getter, which logs k and then throws or
+   yields the inner method (MNone: the getter returns undefined) *)
+Inductive meth :=
+| MNone
+| MDo (setv : option (nat * prim)) (r : mret)
+| MInherit
+| MQuiet (r : mret)
+| MDoS (tid twhich : Z) (m2 : meth) (r : mret)
+| MGet (k : Z) (thr : bool) (inner : meth).
 
 Record obj := {
   o_id : Z;
@@ -116,9 +127,23 @@ Definition resolve (st : state) (o : obj) (which : Z) : Z * meth :=
   end.
 
 (* call the method found on [holder]; None = not callable or a non-primitive result *)
-Definition call_meth (holder which : Z) (m : meth) : M (option prim) :=
+Fixpoint call_meth (holder which : Z) (m : meth) {struct m} : M (option prim) :=
   match m with
   | MNone | MInherit => ret None
+  | MGet k thr inner =>
+      (* 8.12.3 [[Get]] of an accessor property calls the getter; 8.12.8 does this [[Get]] immediately
+         before the call of that method, and only reaches the second method's [[Get]] when the first
+         method was not callable or returned an object *)
+      _ <- logk k ;;
+      if thr then throw (300 + holder * 2 + which) else call_meth holder which inner
+  | MDoS tid twhich m2 r =>
+      _ <- logk (holder * 2 + which) ;;
+      _ <- setmeth tid twhich m2 ;;
+      match r with
+      | MPrim p => ret (Some p)
+      | MObj => ret None
+      | MThrow => throw (100 + holder * 2 + which)
+      end
   | MQuiet r => match r with MPrim p => ret (Some p) | MObj => ret None | MThrow => throw (100 + holder * 2 + which) end
   | MDo setv r =>
       _ <- logk (holder * 2 + which) ;;
